@@ -5,6 +5,7 @@
 //!   conform <property> record --seed S --out trace.ndjson  impl -> spec
 mod util;
 mod c01;
+mod c02;
 mod c05;
 mod c07;
 mod c08;
@@ -44,6 +45,8 @@ fn main() {
         ("c10", "schedule") => c10::schedule(rest),
         ("c10", "config") => c10::config(rest),
         ("c10", "fault") => c10::fault(rest),
+        ("c02", "replay") => c02::replay(rest),
+        ("c02", "record") => c02::record(rest),
         (p, m) => util::tool_error(&format!("unknown command {p} {m}")),
     }
 }
